@@ -9,6 +9,9 @@
 (*                             parseFrame, Iter), body compressed or not    *)
 (*   sess-iter[-z]             a void / set-keyspace / schema-change result   *)
 (*                             as Query.Iter() of a live session shows it   *)
+(*   sess-full-t / sess-skip-t the same with a temporary read timeout injected *)
+(*                             after the header and a few body bytes of each  *)
+(*                             response (the view must not depend on it)      *)
 (*   sess-prep[-z]             a PREPARED response as the application sees  *)
 (*                             it (QueryInfo handed to a binding function)  *)
 (*   sess-full / sess-skip[-z] through a live session that prepared the     *)
@@ -25,7 +28,7 @@ Next == UNCHANGED l
 Spec == Init /\ [][Next]_l
 
 ModeComp(mode) == mode \in {"snappy", "sess-full-z", "sess-skip-z", "sess-prep-z", "sess-iter-z"}
-ModeSess(mode) == mode \in {"sess-full", "sess-skip", "sess-full-z", "sess-skip-z", "sess-prep", "sess-prep-z", "sess-iter", "sess-iter-z"}
+ModeSess(mode) == mode \in {"sess-full", "sess-skip", "sess-full-z", "sess-skip-z", "sess-prep", "sess-prep-z", "sess-iter", "sess-iter-z", "sess-full-t", "sess-skip-t"}
 ModeIter(mode) == mode \in {"sess-iter", "sess-iter-z"}
 ModeApi(mode) == mode \in {"sess-prep", "sess-prep-z"}
 
